@@ -34,7 +34,8 @@ def extra_referrers(rng, g, k):
     for i in range(k):
         if not anyt:
             break
-        kind = rng.choice(["surround", "inside", "connector", "connector-corner", "polyline", "use", "reuse", "expr", "surround2", "text-rel", "shifted", "clipped", "shifted-in-group"])
+        kind = rng.choice(["surround", "inside", "connector", "connector-corner", "polyline", "use", "reuse", "expr", "surround2", "text-rel", "shifted", "clipped", "shifted-in-group",
+                           "condition"])
         eid = "x%d" % i
         if kind in ("surround", "surround2"):
             ts = rng.sample(anyt, min(len(anyt), 1 if kind == "surround" else 2))
@@ -103,6 +104,14 @@ def extra_referrers(rng, g, k):
         elif kind == "expr":
             t = rng.choice(anyt)
             s = '<rect id="%s" xy="{{#%s~x2 + 1}} {{#%s~cy}}" wh="{{#%s~w / 2 + 1}} 2"/>' % (eid, t.id, t.id, t.id)
+            deps = [t.id]
+        elif kind == "condition":
+            # a reference inside the condition of an <if> / the count of a <loop>: always true / one pass, whatever the order
+            t = rng.choice(anyt)
+            inner = '<rect id="%s" xy="%d %d" wh="3 2"/>' % (eid, rng.randint(-20, 60), rng.randint(-20, 60))
+            s = rng.choice(['<if test="ge(#%s~w, 0)">%s</if>', '<if test="{{#%s~x2 - #%s~x + 1}}">%%s</if>' % (t.id, t.id), '<loop count="{{1 + 0 * #%s~h}}">%s</loop>',
+                            '<if test="not(lt(#%s~cy, -1000))">%s</if>'])
+            s = s % ((t.id, inner) if s.count("%s") == 2 else (inner,))
             deps = [t.id]
         else:
             t = rng.choice(anyt)
@@ -276,11 +285,14 @@ def make_case(rng):
 def make_negative(rng):
     g = layout.LayoutGen(rng, exact=True, use_prev=False, shapes=["rect", "circle", "box"]).build(rng.choice([2, 3, 4]))
     items = [[e.id, e.render(), [], "layout"] for e in g.els]
-    k = rng.choice(["unknown-id", "cycle", "self", "no-bbox", "no-bbox-in-list", "unknown-clip"])
+    k = rng.choice(["unknown-id", "cycle", "self", "no-bbox", "no-bbox-in-list", "unknown-clip", "unknown-id-in-condition"])
     ref = rng.choice(["xy=\"#%s|h\" wh=\"2\"", "wh=\"#%s\"", "surround=\"#%s\"", "xy=\"{{#%s~x2}} 0\" wh=\"2\"", "cxy=\"#%s@c\" r=\"2\""])
     shape = "circle" if "r=" in ref else "rect"
     if k == "unknown-id":
         items.append(["z1", '  <%s id="z1" %s/>' % (shape, ref % "nowhere"), [], "neg"])
+    elif k == "unknown-id-in-condition":
+        items.append(["z1", '  ' + rng.choice(['<if test="gt(#nowhere~w, 3)"><rect id="z1" wh="2"/></if>', '<if test="#nowhere~w"><rect id="z1" wh="2"/></if>',
+                                                  '<loop count="{{#nowhere~w}}"><rect id="z1" wh="2"/></loop>', '<loop while="lt(#nowhere~x, 0)"><rect id="z1" wh="2"/></loop>']), [], "neg"])
     elif k == "cycle":
         items.append(["z1", '  <rect id="z1" xy="#z2|h" wh="2"/>', [], "neg"])
         items.append(["z2", '  <%s id="z2" %s/>' % (shape, ref % "z1"), [], "neg"])
